@@ -166,7 +166,8 @@ def information_weight(data, prior_strength=0.1, approximate_prior=False, target
         column_kl_divergence_func = supervised_column_kl
 
     csc_data = data.tocsc()
-    csc_data.sort_indices()
+    if not csc_data.has_sorted_indices:
+        csc_data = csc_data.sorted_indices()
 
     weights = column_weights(
         csc_data.indptr,
